@@ -13,7 +13,11 @@ Lean's structural checker and no fuel is involved.
 The reporter is a parameter: `lenient = true` models a reporter that returns nil (keep
 going), `false` the default reporter that returns the error (the handler latches it and
 `Lex` returns 0 from then on).  Go panics are modelled: `panicked` is set where the Go code
-panics (`FileInfo` precondition panics and the out-of-range index in `SourcePos`).
+panics (`FileInfo` precondition panics and an out-of-range index in `SourcePos`).
+The model follows /repo HEAD including the fixes bf5e1388 (newlines inside string literals reach
+the line table), e715107a (escape errors are positioned at the escape's start offset) and
+7c1a0665 (hex / unicode escapes through `ParseUint`).  Raw characters of a string literal still go
+through `buf.WriteRune` (an ill-formed byte becomes U+FFFD: known finding of C14).
 -/
 import PCV.Model.Utf8
 import PCV.Model.FileInfo
@@ -225,11 +229,6 @@ def asBytes (cs : List Rn) : List UInt8 := cs.map (fun c => UInt8.ofNat c.r)
 /-- `string(rune)` / `buf.WriteRune` -/
 def enc (r : Nat) : List UInt8 := Utf8.encodeRune r
 
-/-- `buf.WriteRune(rune(i))` for an int: negative values are invalid runes -/
-def encInt (i : Int) : List UInt8 := if i < 0 then [0xEF, 0xBF, 0xBD] else enc i.toNat
-
-def byteOfInt (i : Int) : UInt8 := UInt8.ofNat (i % 256).toNat
-
 structure SS where
   buf : List UInt8 := []
   escErr : Option Err := none
@@ -247,23 +246,23 @@ inductive Step where
   | cont (st : St) (ss : SS)
   | done (st : St) (res : StrRes)
 
-/-- the tail of `reportErr`: `escapeError = l.errWithCurrentPos(err, -len(badEscape))` -/
-def newEscErr (st : St) (ss : SS) (cls : EC) (blen : Nat) : Step :=
-  let off : Int := (st.pos : Int) - (blen : Int)
-  match sourcePos st.fi off with
+/-- the tail of `reportErr`: `escapeError = l.errWithCurrentPos(err, escStart-l.input.offset())`,
+    i.e. the error is positioned at `escStart`, the offset at which the iteration began -/
+def newEscErr (st : St) (ss : SS) (cls : EC) (escStart : Nat) : Step :=
+  match sourcePos st.fi (escStart : Int) with
   | none => .done (panic st) .panic
-  | some (l, c) => .cont st { ss with escErr := some ⟨cls, off, l, c⟩ }
+  | some (l, c) => .cont st { ss with escErr := some ⟨cls, escStart, l, c⟩ }
 
-/-- the `reportErr` closure; `blen` = `len(badEscape)` in bytes of the re-encoded text -/
-def reportErr (st : St) (ss : SS) (cls : EC) (blen : Nat) : Step :=
+/-- the `reportErr` closure -/
+def reportErr (st : St) (ss : SS) (cls : EC) (escStart : Nat) : Step :=
   if ss.noMore then .cont st ss
   else
     match ss.escErr with
     | some e =>
       -- report the previous one
       let r := handleError st e
-      newEscErr r.1 { ss with noMore := !r.2 } cls blen
-    | none => newEscErr st ss cls blen
+      newEscErr r.1 { ss with noMore := !r.2 } cls escStart
+    | none => newEscErr st ss cls escStart
 
 /-- the `for i := range u` loop of the unicode escapes: the runes stored in `u`
     (`none` = EOF inside the loop) -/
@@ -283,24 +282,24 @@ inductive Act where
   | close                                -- closing quote: break
   | eof                                  -- EOF inside an escape: `return "", err`
   | push (bs : List UInt8)               -- bytes written to buf
-  | report (cls : EC) (blen : Nat)       -- `reportErr(msg, badEscape)`, blen = len(badEscape)
+  | report (cls : EC)                    -- `reportErr(msg, badEscape)`
 deriving Repr, DecidableEq
 
 /-- `\x` / `\X` escape: `e` is the x, `rs1` the runes after it (counts include `\` and `e`) -/
-def planHex (q : Nat) (e : Rn) (rs1 : List Rn) : Nat × Act :=
+def planHex (q : Nat) (rs1 : List Rn) : Nat × Act :=
   match rs1 with
   | [] => (2, .eof)
   | c1 :: rs2 =>
-    if c1.r = q ∨ c1.r = 92 then (2, .report .badHex (1 + (enc e.r).length))
+    if c1.r = q ∨ c1.r = 92 then (2, .report .badHex)
     else
       match rs2 with
       | [] => (3, .eof)
       | c2 :: _ =>
         let k := if isHexR c2.r then 4 else 3
         let hex := if isHexR c2.r then enc c1.r ++ enc c2.r else enc c1.r
-        match parseInt hex 16 32 with
-        | none => (k, .report .badHex (1 + (enc e.r).length + hex.length))
-        | some i => (k, .push [byteOfInt i])
+        match parseUint hex 16 32 with
+        | .ok i => (k, .push [UInt8.ofNat i])
+        | _ => (k, .report .badHex)
 
 /-- octal escape: `e` is the first digit -/
 def planOct (e : Rn) (rs1 : List Rn) : Nat × Act :=
@@ -317,7 +316,7 @@ def planOct (e : Rn) (rs1 : List Rn) : Nat × Act :=
         if !isOctR c3.r then (3, .push [UInt8.ofNat ((e.r - 48) * 8 + (c2.r - 48))])
         else
           let v := (e.r - 48) * 64 + (c2.r - 48) * 8 + (c3.r - 48)
-          if v > 0xff then (4, .report .octalRange 4)
+          if v > 0xff then (4, .report .octalRange)
           else (4, .push [UInt8.ofNat v])
 
 /-- `\u` (n = 4) and `\U` (n = 8, with the range check) escapes -/
@@ -326,16 +325,16 @@ def planUni (q : Nat) (n : Nat) (rs1 : List Rn) : Nat × Act :=
   | none => (2 + rs1.length, .eof)
   | some u =>
     let s := encAll u
-    if u.length < n then (2 + u.length, .report .badUnicode (2 + s.length))
-    else match parseInt s 16 32 with
-      | none => (2 + u.length, .report .badUnicode (2 + s.length))
-      | some i =>
-        if n = 8 ∧ (i > 0x10ffff ∨ i < 0) then (2 + u.length, .report .unicodeRange (2 + s.length))
-        else (2 + u.length, .push (encInt i))
+    if u.length < n then (2 + u.length, .report .badUnicode)
+    else match parseUint s 16 32 with
+      | .ok i =>
+        if n = 8 ∧ i > 0x10ffff then (2 + u.length, .report .unicodeRange)
+        else (2 + u.length, .push (enc i))
+      | _ => (2 + u.length, .report .badUnicode)
 
 /-- the escape after a backslash: `e` is the rune after it -/
 def planEsc (q : Nat) (e : Rn) (rs1 : List Rn) : Nat × Act :=
-  if e.r = 120 ∨ e.r = 88 then planHex q e rs1
+  if e.r = 120 ∨ e.r = 88 then planHex q rs1
   else if isOctR e.r then planOct e rs1
   else if e.r = 117 then planUni q 4 rs1
   else if e.r = 85 then planUni q 8 rs1
@@ -350,7 +349,7 @@ def planEsc (q : Nat) (e : Rn) (rs1 : List Rn) : Nat × Act :=
   else if e.r = 39 then (2, .push [39])
   else if e.r = 34 then (2, .push [34])
   else if e.r = 63 then (2, .push [63])
-  else (2, .report .badEscape (1 + (enc e.r).length))
+  else (2, .report .badEscape)
 
 /-- One iteration of the main loop of `readStringLiteral(quote)` on the remaining runes
     `c :: rs`: the number of runes it consumes (runes read and not unread, `c` included) and
@@ -358,23 +357,31 @@ def planEsc (q : Nat) (e : Rn) (rs1 : List Rn) : Nat × Act :=
 def strPlan (q : Nat) (c : Rn) (rs : List Rn) : Nat × Act :=
   if c.r = 10 then (1, .eol)
   else if c.r = q then (1, .close)
-  else if c.r = 0 then (1, .report .nulInString 1)
+  else if c.r = 0 then (1, .report .nulInString)
   else if c.r = 92 then
     match rs with
     | [] => (1, .eof)
     | e :: rs1 => planEsc q e rs1
-  else (1, .push (enc c.r))
+  else (1, .push (enc c.r))        -- `buf.WriteRune(c)`
 
-/-- one iteration of the main loop of `readStringLiteral(quote)`: the plan applied to the state -/
+/-- consume a rune inside a string literal: every rune read for good goes through
+    `maybeNewLine` (a no-op unless it is a newline) -/
+def advNL (st : St) (c : Rn) : St := maybeNewLine (adv st c) c
+
+def advAllNL (st : St) (cs : List Rn) : St := cs.foldl advNL st
+
+/-- one iteration of the main loop of `readStringLiteral(quote)`: the plan applied to the state;
+    `escStart` is the reader offset at the start of the iteration -/
 def strIter (q : Nat) (st : St) (ss : SS) (c : Rn) (rs : List Rn) : Step :=
   let p := strPlan q c rs
-  let st := advAll st ((c :: rs).take p.1)
+  let escStart := st.pos
+  let st := advAllNL st ((c :: rs).take p.1)
   match p.2 with
   | .eol => .done st (.plain .eolInString)
   | .close => .done st (match ss.escErr with | some e => .pos e | none => .ok ss.buf)
   | .eof => .done st (.plain .eof)
   | .push bs => push st ss bs
-  | .report cls blen => reportErr st ss cls blen
+  | .report cls => reportErr st ss cls escStart
 
 /-- `readStringLiteral(quote)`: loop over the remaining runes -/
 def strGo (q : Nat) : Nat → St → SS → List Rn → St × StrRes
